@@ -6,8 +6,12 @@ use crate::header::Header;
 use serde_json::{json, Value};
 
 pub const BODY_ALPHABET: &[&[u8]] = &[b"a", b"b", b"-", b"\r", b"\n"];
-pub const BOUNDARIES: &[&str] = &["b", "ab", "--b", "-b", "b-", "a-b", "----WebKitFormBoundaryX", "'()+_,./:=?", "0123456789012345678901234567890123456789012345678901234567890123456789", "X1", "----x-y-z"];
-pub const HEADER_SETS: &[&[(&str, &str)]] = &[&[("Content-Disposition", "form-data; name=\"f\"")], &[("Content-Disposition", "form-data; name=\"g\"; filename=\"g.txt\""), ("Content-Type", "text/plain")]];
+pub const BOUNDARIES: &[&str] = &["-", "--", "---", "----------", "b", "ab", "--b", "-b", "b-", "a-b", "----WebKitFormBoundaryX", "'()+_,./:=?", "0123456789012345678901234567890123456789012345678901234567890123456789", "X1", "----x-y-z"];
+pub const HEADER_SETS: &[&[(&str, &str)]] = &[&[("Content-Disposition", "form-data; name=\"f\"")], &[("Content-Disposition", "form-data; name=\"g\"; filename=\"g.txt\""), ("Content-Type", "text/plain")],
+    // part headers a parser might act on: declared lengths that do not describe the body, an encoding, a nested multipart type
+    &[("Content-Disposition", "form-data; name=\"f\""), ("Content-Length", "0")], &[("Content-Disposition", "form-data; name=\"f\""), ("Content-Length", "1")], &[("Content-Disposition", "form-data; name=\"f\""), ("content-length", "8")],
+    &[("Content-Disposition", "form-data; name=\"f\""), ("Content-Length", "20")], &[("Content-Disposition", "form-data; name=\"f\""), ("Content-Length", "99999999")], &[("Content-Disposition", "form-data; name=\"f\""), ("Content-Transfer-Encoding", "base64")],
+    &[("Content-Disposition", "form-data; name=\"f\""), ("Content-Type", "multipart/mixed; boundary=b")]];
 
 #[derive(Clone, Debug)]
 pub struct Case {
